@@ -647,3 +647,37 @@ func (e *Exec) arithRangeVar(t *Term, w int, signed bool) {
 	e.assumeQuiet(e.ctx.RCmp(OpRLe, t, e.ctx.IntConstBig(hi)))
 	e.ctx.setInfo(t, lo, hi, 0)
 }
+
+// summary replaces a callee by a contract (assume/guarantee: the contract is what another check establishes).
+//
+//	"strictly-monotone-nonneg": f(x) for the last integer argument x: f(x) >= 0, x1 < x2 => f(x1) < f(x2),
+//	x1 == x2 => f(x1) == f(x2), f bounded by 2^40 (no overflow in the callers' arithmetic).
+func (e *Exec) summary(kind string, fn *ssa.Function, args []Value) (Value, *GoPanic) {
+	c := e.ctx
+	switch kind {
+	case "strictly-monotone-nonneg":
+		x := args[len(args)-1].(*Term)
+		e.realN++
+		y := c.Var(fmt.Sprintf("summary!%s!%d", fn.Name(), e.realN), BV(64))
+		e.assumeQuiet(c.Cmp(OpSle, c.Const(64, 0), y))
+		e.assumeQuiet(c.Cmp(OpSlt, y, c.Const(64, 1<<40)))
+		e.assumeQuiet(c.Ite(c.Eq(x, c.Const(64, 0)), c.Eq(y, c.Const(64, 0)), c.Cmp(OpSlt, c.Const(64, 0), y)))
+		for _, p := range e.summaryCalls[fn.String()] {
+			e.assumeQuiet(c.Ite(c.Eq(p[0], x), c.Eq(p[1], y), c.Ite(c.Cmp(OpSlt, p[0], x), c.Cmp(OpSlt, p[1], y), c.Cmp(OpSlt, y, p[1]))))
+		}
+		if e.summaryCalls == nil {
+			e.summaryCalls = map[string][][2]*Term{}
+		}
+		e.summaryCalls[fn.String()] = append(e.summaryCalls[fn.String()], [2]*Term{x, y})
+		return y, nil
+	}
+	if strings.HasPrefix(kind, "linear:") {
+		// f(x) = k*x exactly (e.g. SMF.TimeAt for 120 BPM, resolution 1000, no tempo events: 500 microseconds per tick)
+		var k uint64
+		fmt.Sscanf(kind[len("linear:"):], "%d", &k)
+		x := args[len(args)-1].(*Term)
+		return c.BinBV(OpMul, x, c.Const(x.sort.W, k)), nil
+	}
+	e.unsupported("unknown summary kind %q", kind)
+	return nil, nil
+}
